@@ -95,4 +95,13 @@ def constants():
     if not m:
         raise ValueError("Descriptor._assert_index: index bound not found")
     t += f"/-- `Descriptor._assert_index`: 0 <= index < INDEX_BOUND -/\ndef INDEX_BOUND : Nat := {int(m.group(1), 0)}\n"
+    from btclib import core_import as CI
+    src = inspect.getsource(CI._assert_key_range)
+    m = re.search(r"if end >> (\d+):", src)
+    if not m or "if not 0 <= start <= end:" not in src or "if end - start >= _MAX_RANGE_SPAN:" not in src:
+        raise ValueError("core_import._assert_key_range: unexpected guards")
+    t += "/-- `core_import`: DEFAULT_RANGE, _MAX_RANGE_SPAN, and the shift of `if end >> 31` in `_assert_key_range` -/\n"
+    t += f"def CORE_DEFAULT_RANGE : Int × Int := ({int(CI.DEFAULT_RANGE[0])}, {int(CI.DEFAULT_RANGE[1])})\n"
+    t += f"def CORE_MAX_RANGE_SPAN : Int := {int(CI._MAX_RANGE_SPAN)}\n"
+    t += f"def CORE_END_SHIFT : Nat := {int(m.group(1))}\n"
     return t
